@@ -32,10 +32,48 @@ import FV.Props.C03
   | `glbfloor_correct_posted`                  | (`FV/Model/GlbOpt.lean`: bounds, constants, capacity, hard-sum     |
   |                                            | rows) within `tolI`/`tolE`; non-convergence ⇒ raise (`solve=none`) |
 
-  | `glbfloor_correct_from_die`                | `SolverOK`; the start state is DERIVED (C01 valid die → C03        |
-  |                                            | `initial_allocation_is_glb_start` → `glbfloor_correct`)            |
+  | `glbfloor_correct_from_die`,               | `SolverOK` / `SolverMeetsPosted`; the start state is DERIVED (C01   |
+  | `glbfloor_correct_posted_from_die`         | valid die → C03 `initial_allocation_is_glb_start` → the loop)      |
   | `WitnessFixed/WitnessHard.glbfloor_correct_applied` | applied instances (fixed module / flippable hard module,  |
   |                                            | state-dependent solver, refine pass, `SolverOK` proved)            |
+  | `posted_centres_in_die`, `posted_area_centroid`,     | nothing: statements about EVERY point satisfying the     |
+  | `posted_centroid_in_cell_hull`, `posted_dispersion`, | generated system — the bodies of the area, centroid,     |
+  | `posted_net_centres`,                                | dispersion and net-centre rows read back, and the        |
+  | `posted_objective_alpha_weighting`                   | objective = alpha·wire length + (1-alpha)·dispersion     |
+  | `extract_returns_of_solverPost`            | `SolverPost` incl. `a ≤ 1`: then `extract_solution` does NOT raise  |
+  | `solverMeetsPosted_of_vars`,               | `SolverMeetsPostedVars`: bounds of the declared VARIABLES and the   |
+  | `glbfloor_correct_solver_vars`             | posted rows — the constants are read back by FRAME, not assumed    |
+
+  THE HYPOTHESES OF `glbfloor_correct_posted` / `glbfloor_correct_solver_vars`, one by one:
+  * `hv`, `hin`, `hown`, `hfc` (valid start allocation inside the die on which the fixed modules own their cells, fixed
+    centres inside the die): DISCHARGED by `glbfloor_correct_posted_from_die` for what `create_initial_allocation` returns
+    on a valid die (C01 → C03).
+  * `hthr : 0 < thr`: a PARAMETER RANGE.  Needed: with `thr = 0` the filter `a > 1 - thr` keeps nothing (the constructor then
+    refuses the empty list: the run does not return); stated because `fixed_kept` needs `1 - thr < 1`.
+  * `htI, htE : 0 ≤ tol`, `htol : tolI + (#modules)·tolE ≤ 1 - thr`: the solver's constraint tolerance must be smaller than the
+    filter's margin (IPOPT/APOPT: 1e-6 against `1 - thr ≥ 0.01` in every run of the harness).  A PARAMETER of the solver
+    hypothesis; necessary for "a fixed module's cell lists nobody else" (a stray ratio `tol > 1 - thr` would be listed).
+  * `hlim : maxIter ≠ some 0`: PARAMETER RANGE (`glbfloor`'s command line asserts `max_iter is None or max_iter > 0`); with 0
+    passes `glbfloor` returns the initial allocation, which may over-occupy cells, and the optimiser never ran ("for which
+    the optimiser returns" is then empty).
+  * `hk : KeysDistinct` (only `…_solver_vars`): module names distinct and different from the names `m_r` FRAME gives to the
+    rectangles of movable hard modules.  INPUT WELL-FORMEDNESS; when violated GEKKO refuses the duplicate variable (raise).
+  * `hsol : SolverMeetsPosted(Vars)`: MUST STAY AN ASSUMPTION ABOUT GEKKO/APOPT.  It says three things nothing in FRAME can
+    establish: (i) when `solve()` returns (no exception; GEKKO raises on APPSTATUS ≠ 1 because FRAME calls it with the
+    default `debug=1` — observed on every solve by the harness), the values it left in the variables are a point of the NLP
+    that was posted; (ii) that point respects the declared bounds and the equations within the solver's tolerances;
+    (iii) `get_value` reads those values.  The CONTENT of what was posted is no longer assumed: it is the generated system
+    `GlbOpt.post`, compared node-for-node with the captured GEKKO model on every run; that constants read back as constants is
+    proved (`sat_of_satVars`).
+  `SolverPost.bounds … ≤ 1`: not needed by any clause about a RETURNED value (the constructor asserts `ratio ≤ 1`); it is what
+  makes `extract_solution` total on the answer — `extract_returns_of_solverPost`.
+
+  OUTSIDE THE QUANTIFIER (recorded, counted by the harness family `blocked`): a module — hard or soft — lying entirely on
+  blockages gets no cell in the initial allocation and `glbfloor` raises `KeyError` in `calculate_dispersions`
+  (optimization.py:439 → :80 → allocation.py:115) before the first optimisation.  The property says "whenever global
+  floorplanning returns"; a raise is not a return, so no clause applies.  (In the model this is the start state of the loop
+  not existing — `create_initial_allocation` is C03's.)  Likewise a netlist with clashing keys (`H` movable hard and a module
+  named `H_0`): GEKKO raises "Duplicate Names".
 
   The start-state hypotheses `hv`, `hin`, `hown` of `glbfloor_correct` are established for what
   `create_initial_allocation` returns on a valid die by `FV.C03.initial_allocation_is_glb_start`; `hfc` (centres of the
@@ -801,26 +839,33 @@ theorem solverPost_mono (ans : Answer α) (tol tol' : α) (die : Rect α) (mods 
     (h : SolverPost ans tol die mods n) (hle : tol ≤ tol') : SolverPost ans tol' die mods n :=
   ⟨h.bounds, fun c hc => le_trans (h.rows c hc) (by linarith), h.centres⟩
 
-/-- the input of the constraint generator for a loop state (`areaOf`, `edges`: the soft modules' areas and the nets,
-    which the loop state does not carry and the implication does not use). -/
-def inputOf (die : Rect α) (thr : α) (o : AState α) (areaOf : String → α) (edges : List Nat) : GlbOpt.Input α :=
-  { die := die, epsD := o.eps.dist, thr := thr, offered := o.alloc.cells.map ofCell, mods := o.mods,
-    areaOf := areaOf, edgeSizes := edges }
+/-- what the loop state does not carry and the implication does not use: the trade-off parameter, the soft modules'
+    areas, the nets (weight, pins) and Python's float power. -/
+structure NetData (α : Type) where
+  alpha : α
+  areaOf : String → α
+  edges : List (α × List String)
+  powF : α → α → α
+
+/-- the input of the constraint generator for a loop state. -/
+def inputOf (die : Rect α) (thr : α) (o : AState α) (nd : NetData α) : GlbOpt.Input α :=
+  { die := die, epsD := o.eps.dist, thr := thr, alpha := nd.alpha, offered := o.alloc.cells.map ofCell, mods := o.mods,
+    areaOf := nd.areaOf, edges := nd.edges, powF := nd.powF }
 
 /-- WHAT REMAINS ASSUMED OF THE SOLVER: whenever it returns an answer for a state of the loop, the answer is read from
     a point that satisfies what `optimize_allocation` posted for that state, within the tolerances. -/
 def SolverMeetsPosted (solve : AState α → Option (Answer α)) (tolI tolE thr : α) (die : Rect α) (init : AState α) : Prop :=
   ∀ o ans, GlbInv die init o → solve o = some ans →
-    ∃ (σ : GlbOpt.V → α) (areaOf : String → α) (edges : List Nat),
-      ans = GlbOpt.ansOf σ ∧ GlbOpt.Sat σ tolI tolE (GlbOpt.post (inputOf die thr o areaOf edges))
+    ∃ (σ : GlbOpt.V → α) (nd : NetData α),
+      ans = GlbOpt.ansOf σ ∧ GlbOpt.Sat σ tolI tolE (GlbOpt.post (inputOf die thr o nd))
 
 theorem solverOK_of_posted (solve : AState α → Option (Answer α)) (tolI tolE thr : α) (die : Rect α) (init : AState α)
     (htE : 0 ≤ tolE) (h : SolverMeetsPosted solve tolI tolE thr die init) :
     SolverOK solve (tolI + (init.mods.length : α) * tolE) die init := by
   intro o ans hinv hsv
-  obtain ⟨σ, areaOf, edges, rfl, hsat⟩ := h o ans hinv hsv
-  have hunit : ∀ mm ∈ modelModules (inputOf die thr o areaOf edges).mods, ∀ c v,
-      getA (inputOf die thr o areaOf edges).offered mm c = some v → 0 ≤ v ∧ v ≤ 1 := by
+  obtain ⟨σ, nd, rfl, hsat⟩ := h o ans hinv hsv
+  have hunit : ∀ mm ∈ modelModules (inputOf die thr o nd).mods, ∀ c v,
+      getA (inputOf die thr o nd).offered mm c = some v → 0 ≤ v ∧ v ≤ 1 := by
     intro mm _ c v hg
     refine getA_unit _ mm ?_ c v hg
     intro ra hra
@@ -831,11 +876,11 @@ theorem solverOK_of_posted (solve : AState α → Option (Answer α)) (tolI tolE
     unfold allocOK at this
     simp only [Bool.and_eq_true, List.all_eq_true, decide_eq_true_eq, Rect.zero_eq, Alloc.one_eq] at this
     exact ⟨(this.1 p hp).1.2, (this.1 p hp).2⟩
-  obtain ⟨post, cr⟩ := posted_constraints_imply_solverPost (inputOf die thr o areaOf edges) σ tolI tolE hsat hunit
+  obtain ⟨post, cr⟩ := posted_constraints_imply_solverPost (inputOf die thr o nd) σ tolI tolE hsat hunit
     hinv.fixedCentres
   have hlen : (o.alloc.cells.map ofCell).length = o.alloc.cells.length := by simp
   refine ⟨?_, cr⟩
-  have hcount : (((inputOf die thr o areaOf edges).mods.filter GlbOpt.movable).length : α) ≤ (init.mods.length : α) := by
+  have hcount : (((inputOf die thr o nd).mods.filter GlbOpt.movable).length : α) ≤ (init.mods.length : α) := by
     have h1 : (o.mods.filter GlbOpt.movable).length ≤ o.mods.length := List.length_filter_le _ _
     have h2 : o.mods.length = init.mods.length := hinv.mods.length_eq.symm
     exact_mod_cast (h2 ▸ h1)
@@ -867,6 +912,184 @@ theorem glbfloor_correct_posted (env : Env α) (solve : AState α → Option (An
   glbfloor_correct env solve thr _ die maxIter fuel init r hv hin hown hfc hthr
     (by have := mul_nonneg (Nat.cast_nonneg (α := α) init.mods.length) htE; linarith) htol hlim
     (solverOK_of_posted solve tolI tolE thr die init htE hsol) h
+
+/-! ### the bodies of the posted rows: what they say, proved from the generated system
+
+`FV/Model/GlbOpt.lean` generates every row `optimize_allocation` posts WITH its body (compared node-for-node with the captured
+GEKKO model on every harness run).  The theorems below read the bodies back: every statement is about an arbitrary point `σ`
+that satisfies the generated system (`GlbOpt.Sat`) — a theorem about what FRAME posts, not an assumption about the solver. -/
+
+/-- **every module centre lies in the die — from the posted system.**  For every module of the netlist the centre read
+    back from a point satisfying the posted system is inside the die: for soft and movable hard modules because FRAME
+    declares the centre variables with the die's bounding box as bounds, for fixed modules because their centres are posted as
+    constants (inside the die by C01/C03). -/
+theorem posted_centres_in_die (inp : GlbOpt.Input α) (σ : GlbOpt.V → α) (tolI tolE : α)
+    (hs : GlbOpt.Sat σ tolI tolE (GlbOpt.post inp))
+    (hfc : ∀ f ∈ inp.mods, f.fixed = true → InDie inp.die f.cx f.cy) :
+    ∀ m ∈ inp.mods, InDie inp.die (σ (.x m.name)) (σ (.y m.name)) := by
+  intro m hm
+  by_cases hmv : GlbOpt.movable m = true
+  · exact (GlbOpt.movable_bounds inp σ tolI tolE hs m hm hmv).2
+  · by_cases hfx : m.fixed = true
+    · obtain ⟨hx, hy, _⟩ := GlbOpt.fixed_consts inp σ tolI tolE hs m hm hfx
+      rw [hx, hy]; exact hfc m hm hfx
+    · exact GlbOpt.model_centre_bounds inp σ tolI tolE hs m
+        (GlbOpt.mem_modelModules_self inp.mods m hm (by simpa using hmv)) (by simpa using hfx)
+
+/-- **area and centroid rows.**  For every model module (soft, fixed, or one rectangle of a movable hard module): the area
+    it is given over the offered cells is at least its own area (within `tolI`), and its centre is the mean of the cell
+    centres weighted by the area given in each cell, normalised by its own area (within `tolE`). -/
+theorem posted_area_centroid (inp : GlbOpt.Input α) (σ : GlbOpt.V → α) (tolI tolE : α)
+    (hs : GlbOpt.Sat σ tolI tolE (GlbOpt.post inp)) (m : Glb.Module α) (hm : m ∈ modelModules inp.mods) :
+    GlbOpt.mmArea inp m ≤ GlbOpt.givenArea σ inp m + tolI ∧
+    |1 / GlbOpt.mmArea inp m * ((GlbOpt.cellIdx inp).map fun c =>
+        GlbOpt.cellArea inp c * GlbOpt.cellCx inp c * σ (.a m.name c)).sum - σ (.x m.name)| ≤ tolE ∧
+    |1 / GlbOpt.mmArea inp m * ((GlbOpt.cellIdx inp).map fun c =>
+        GlbOpt.cellArea inp c * GlbOpt.cellCy inp c * σ (.a m.name c)).sum - σ (.y m.name)| ≤ tolE :=
+  ⟨GlbOpt.area_row_meaning inp σ tolI tolE hs m hm, GlbOpt.centroid_row_meaning inp σ tolI tolE hs m hm⟩
+
+/-- **a convex combination of cell centres inside the die is inside the die.**  If the cells offered lie (with their
+    centres) in `[xlo,xhi] × [ylo,yhi]` — e.g. the die — the ratios are non-negative and the module is given exactly its
+    area, then the centroid rows put its centre in that box (within `tolE`); in general the box is scaled by
+    (given area)/(own area) ≥ 1 - tolI/area, which is why FRAME also bounds the centre variables (`posted_centres_in_die`). -/
+theorem posted_centroid_in_cell_hull (inp : GlbOpt.Input α) (σ : GlbOpt.V → α) (tolI tolE : α)
+    (hs : GlbOpt.Sat σ tolI tolE (GlbOpt.post inp)) (m : Glb.Module α) (hm : m ∈ modelModules inp.mods)
+    (hpos : 0 < GlbOpt.mmArea inp m)
+    (hnn : ∀ c < inp.offered.length, 0 ≤ σ (.a m.name c)) (hA : ∀ c < inp.offered.length, 0 ≤ GlbOpt.cellArea inp c)
+    (xlo xhi ylo yhi : α)
+    (hcx : ∀ c < inp.offered.length, xlo ≤ GlbOpt.cellCx inp c ∧ GlbOpt.cellCx inp c ≤ xhi)
+    (hcy : ∀ c < inp.offered.length, ylo ≤ GlbOpt.cellCy inp c ∧ GlbOpt.cellCy inp c ≤ yhi) :
+    (xlo * (GlbOpt.givenArea σ inp m / GlbOpt.mmArea inp m) - tolE ≤ σ (.x m.name) ∧
+     σ (.x m.name) ≤ xhi * (GlbOpt.givenArea σ inp m / GlbOpt.mmArea inp m) + tolE ∧
+     ylo * (GlbOpt.givenArea σ inp m / GlbOpt.mmArea inp m) - tolE ≤ σ (.y m.name) ∧
+     σ (.y m.name) ≤ yhi * (GlbOpt.givenArea σ inp m / GlbOpt.mmArea inp m) + tolE) ∧
+    (GlbOpt.givenArea σ inp m = GlbOpt.mmArea inp m →
+      xlo - tolE ≤ σ (.x m.name) ∧ σ (.x m.name) ≤ xhi + tolE ∧ ylo - tolE ≤ σ (.y m.name) ∧ σ (.y m.name) ≤ yhi + tolE) :=
+  ⟨GlbOpt.centroid_between inp σ tolI tolE hs m hm hpos hnn hA xlo xhi ylo yhi hcx hcy,
+   fun hex => GlbOpt.centroid_in_hull inp σ tolI tolE hs m hm hpos hex hnn hA xlo xhi ylo yhi hcx hcy⟩
+
+/-- **dispersion rows.**  `d[m]` of a soft module is `6 / area^(3/2)` times the second moment, about the module's centre, of
+    the area it is given; `d[m_i]` of rectangle `i` (`w × h`) of a movable hard module is `12 / (w³ + h³)` times the second
+    moment of the area given to the rectangle, the offset along the shorter side stretched by the aspect ratio.  (Within
+    `tolE`; `powF` is Python's float power.) -/
+theorem posted_dispersion (inp : GlbOpt.Input α) (σ : GlbOpt.V → α) (tolI tolE : α)
+    (hs : GlbOpt.Sat σ tolI tolE (GlbOpt.post inp)) :
+    (∀ m ∈ modelModules inp.mods, m.hard = false →
+      |6 / inp.powF (GlbOpt.mmArea inp m) (3 / 2) * ((GlbOpt.cellIdx inp).map fun c =>
+          GlbOpt.cellArea inp c * σ (.a m.name c) *
+            ((σ (.x m.name) - GlbOpt.cellCx inp c) ^ 2 + (σ (.y m.name) - GlbOpt.cellCy inp c) ^ 2)).sum
+        - σ (.d m.name)| ≤ tolE) ∧
+    (∀ m ∈ inp.mods, GlbOpt.movable m = true → ∀ (i : Nat) (rect : Rect α), m.rects[i]? = some rect →
+      |12 / (inp.powF rect.w 3 + inp.powF rect.h 3) * ((GlbOpt.cellIdx inp).map fun c =>
+          GlbOpt.cellArea inp c * σ (.a (subName m.name i) c) *
+            (if rect.w < rect.h then
+              (rect.h / rect.w * (σ (.x (subName m.name i)) - GlbOpt.cellCx inp c)) ^ 2 +
+                (σ (.y (subName m.name i)) - GlbOpt.cellCy inp c) ^ 2
+            else
+              (σ (.x (subName m.name i)) - GlbOpt.cellCx inp c) ^ 2 +
+                (rect.w / rect.h * (σ (.y (subName m.name i)) - GlbOpt.cellCy inp c)) ^ 2)).sum
+        - σ (.d (subName m.name i))| ≤ tolE) :=
+  ⟨fun m hm hh => GlbOpt.softDisp_row_meaning inp σ tolI tolE hs m hm hh,
+   fun m hm hmv i rect hi => GlbOpt.hardDisp_row_meaning inp σ tolI tolE hs m hm hmv i rect hi⟩
+
+/-- **nets with other than two pins**: the anonymous centre variables are the mean of the pins' centres (a fixed module
+    contributes its constant centre). -/
+theorem posted_net_centres (inp : GlbOpt.Input α) (σ : GlbOpt.V → α) (tolI tolE : α)
+    (hs : GlbOpt.Sat σ tolI tolE (GlbOpt.post inp)) (e : Nat) (w : α) (pins : List String)
+    (he : inp.edges[e]? = some (w, pins)) (h2 : pins.length ≠ 2) :
+    |(pins.map (GlbOpt.pinVx σ inp)).sum / (pins.length : α) - σ (.ex e)| ≤ tolE ∧
+    |(pins.map (GlbOpt.pinVy σ inp)).sum / (pins.length : α) - σ (.ey e)| ≤ tolE :=
+  GlbOpt.hyper_row_meaning inp σ tolI tolE hs e w pins he h2
+
+/-- **the objective with its alpha weighting.**  At every point, the sum of all `g.Minimize` terms FRAME posts is
+    `alpha · (total wire length) + (1 - alpha) · (total dispersion)`: wire length = per net the weight times half the
+    squared distance of its two pins, or times the sum of squared distances of its pins from the net's centre variables;
+    total dispersion = the sum of the dispersion variables of the soft modules and of the rectangles of movable hard
+    modules. -/
+theorem posted_objective_alpha_weighting (inp : GlbOpt.Input α) (σ : GlbOpt.V → α) :
+    GlbOpt.objective σ (GlbOpt.post inp) =
+      inp.alpha * GlbOpt.wireLength σ inp + (1 - inp.alpha) * GlbOpt.totalDispersion σ inp :=
+  GlbOpt.objective_eq σ inp
+
+/-! ### `SolverPost.bounds … ≤ 1` is what keeps `extract_solution` from raising
+
+The conclusions above never needed the upper bound `a ≤ 1` of `SolverPost` ("listed ratios ≤ 1" holds of every RETURNED
+allocation because the `Allocation` constructor asserts it).  Its role is the converse direction: with it the constructor's
+ratio assertion cannot fire. -/
+
+/-- **`extract_solution` returns** on an answer meeting `SolverPost`, offered cells in the positive quadrant with pairwise
+    overlap `≤ εA` (any feasible loop state), some ratio above the threshold filter and movable hard modules of non-zero
+    area: no assertion of the `Allocation` constructor fires and `recenter_rectangles` does not divide by zero.  Uses
+    BOTH bounds `0 ≤ a ≤ 1` of `SolverPost`. -/
+theorem extract_returns_of_solverPost (ans : Answer α) (εA thr tol : α) (die : Rect α) (mods : List (Glb.Module α))
+    (cells : List (Rect α)) (post : SolverPost ans tol die mods cells.length)
+    (hne : ∃ m ∈ mods, ∃ c, c < cells.length ∧ 1 - thr < ans.a m.name c)
+    (hq : ∀ r ∈ cells, 0 ≤ r.xmin ∧ 0 ≤ r.ymin)
+    (hsep : cells.Pairwise fun a b => a.areaOverlap b ≤ εA)
+    (harea : ∀ m ∈ mods, m.hard = true → m.fixed = false → totalArea m.rects ≠ 0) :
+    ∃ ms, extractSolution ans εA thr mods cells = .ok (allocList ans thr mods cells, ms) :=
+  extractSolution_returns ans εA thr mods cells post.bounds hne hq hsep harea
+
+/-! ### the constants are FRAME's: the solver hypothesis mentions variables only
+
+`GlbOpt.Sat` asks three things of the point: bounds of the declared variables, the posted rows, and that the entries FRAME
+posted as CONSTANTS read back as those constants.  The last one is not about the solver at all (`get_value` of a float is the
+float): it is discharged here, for netlists whose dictionary keys are distinct (`GlbOpt.KeysDistinct`: module names, and the
+names `m_r` FRAME gives to the rectangles of movable hard modules; a clash makes GEKKO refuse the duplicate variable name —
+observed: the run raises). -/
+
+theorem sameShape_of_modRel (m m' : Glb.Module α) (h : ModRel m m') : GlbOpt.SameShape m m' := by
+  obtain ⟨hn, hh, hf, _, hr, hk⟩ := h
+  refine ⟨hn, hh, hf, ?_⟩
+  by_cases hm : m.hard = true ∧ m.fixed = false
+  · obtain ⟨_, _, _, _, _, _, _, e⟩ := hr hm
+    rw [e]; simp
+  · rw [hk hm]
+
+/-- WHAT REMAINS ASSUMED OF THE SOLVER, constants discharged: whenever it returns for a state of the loop, its values `σ` of
+    the VARIABLES FRAME declared respect their bounds and satisfy the posted rows once FRAME's constants are put back; the
+    answer `extract_solution` reads is that point with the constants read back (`get_value` of a float is the float). -/
+def SolverMeetsPostedVars (solve : AState α → Option (Answer α)) (tolI tolE thr : α) (die : Rect α) (init : AState α) : Prop :=
+  ∀ o ans, GlbInv die init o → solve o = some ans →
+    ∃ (σ : GlbOpt.V → α) (nd : NetData α),
+      ans = GlbOpt.ansOf (GlbOpt.readBack (GlbOpt.post (inputOf die thr o nd)) σ) ∧
+      GlbOpt.SatVars σ tolI tolE (GlbOpt.post (inputOf die thr o nd))
+
+/-- with distinct dictionary keys in the INPUT netlist (they stay distinct along the loop: names, flags and numbers of
+    rectangles do not change), the variables-only hypothesis implies `SolverMeetsPosted`. -/
+theorem solverMeetsPosted_of_vars (solve : AState α → Option (Answer α)) (tolI tolE thr : α) (die : Rect α) (init : AState α)
+    (hk : GlbOpt.KeysDistinct init.mods) (h : SolverMeetsPostedVars solve tolI tolE thr die init) :
+    SolverMeetsPosted solve tolI tolE thr die init := by
+  intro o ans hinv hsv
+  obtain ⟨σ, nd, rfl, hsat⟩ := h o ans hinv hsv
+  have hko : GlbOpt.NamesOK (inputOf die thr o nd) :=
+    GlbOpt.keysDistinct_congr init.mods o.mods (hinv.mods.imp sameShape_of_modRel) hk
+  exact ⟨_, nd, rfl, GlbOpt.sat_of_satVars _ hko σ tolI tolE hsat⟩
+
+/-- **C10 with the solver hypothesis reduced to the VARIABLES and ROWS FRAME posted** (`SolverMeetsPostedVars`): all
+    conclusions of `glbfloor_correct`, for `tol = tolI + (#modules)·tolE`.  Hypotheses left — see the table in the header:
+    start state (discharged by `glbfloor_correct_posted_from_die`), parameter ranges, distinct keys, the solver. -/
+theorem glbfloor_correct_solver_vars (env : Env α) (solve : AState α → Option (Answer α)) (thr tolI tolE : α) (die : Rect α)
+    (maxIter : Option Nat) (fuel : Nat) (init r : AState α)
+    (hv : ValidAlloc init.eps init.alloc) (hin : ∀ c ∈ init.alloc.cells, c.rect.isInside die = true)
+    (hown : ∀ f ∈ init.mods, f.fixed = true → FixedOwn (init.alloc.cells.map ofCell) f)
+    (hfc : ∀ f ∈ init.mods, f.fixed = true → InDie die f.cx f.cy)
+    (hthr : 0 < thr) (htI : 0 ≤ tolI) (htE : 0 ≤ tolE) (htol : tolI + (init.mods.length : α) * tolE ≤ 1 - thr)
+    (hlim : maxIter ≠ some 0) (hk : GlbOpt.KeysDistinct init.mods)
+    (hsol : SolverMeetsPostedVars solve tolI tolE thr die init)
+    (h : glbfloorA env solve thr maxIter fuel init = some r) :
+    CellsFeasible die init.eps.area r ∧
+    (∀ c ∈ r.alloc.cells, c.alloc ≠ [] ∧ ∀ p ∈ c.alloc, 0 ≤ p.2 ∧ p.2 ≤ 1) ∧
+    (∀ c ∈ r.alloc.cells, (c.alloc.map (·.2)).sum ≤ 1 + (tolI + (init.mods.length : α) * tolE)) ∧
+    (∀ m ∈ r.mods, InDie die m.cx m.cy) ∧
+    List.Forall₂ ModRel init.mods r.mods ∧
+    (∀ m ∈ r.mods, m.hard = true → m.fixed = false → IsCentroid m.rects m.cx m.cy) ∧
+    (∀ f ∈ init.mods, f.fixed = true →
+      f ∈ r.mods ∧ FixedOwn (r.alloc.cells.map ofCell) f ∧
+      ∀ c0 ∈ init.alloc.cells, c0.alloc = [(f.name, 1)] → c0.rect.fixed = true →
+        ∃ d ∈ r.alloc.cells, d.rect = c0.rect ∧ d.alloc = [(f.name, 1)]) :=
+  glbfloor_correct_posted env solve thr tolI tolE die maxIter fuel init r hv hin hown hfc hthr htI htE htol hlim
+    (solverMeetsPosted_of_vars solve tolI tolE thr die init hk hsol) h
 
 /-! ### non-vacuity: concrete instances meet the hypotheses -/
 
@@ -931,7 +1154,8 @@ example : (match mkAllocation exEnvA ⟨1/1000000, 1/1000⟩ exRawA with
     per module an area row, two centroid rows (+ the dispersion stub of `S`), one net, the dispersion objective. -/
 def exInp : GlbOpt.Input ℚ :=
   { die := ⟨2, 1, 4, 2, "_", false, false, .nopoly⟩, epsD := 1/1000000, thr := 9/10, offered := exOffered,
-    mods := [⟨"S", false, false, false, 1, 1, []⟩, exF], areaOf := fun n => if n = "S" then 2 else 4, edgeSizes := [2] }
+    alpha := 3/10, mods := [⟨"S", false, false, false, 1, 1, []⟩, exF], areaOf := fun n => if n = "S" then 2 else 4,
+    edges := [(1, ["S", "F"])], powF := fun a _ => a * a }
 
 example : ((GlbOpt.post exInp).vars.length, (GlbOpt.post exInp).consts.length, (GlbOpt.post exInp).rows.length) =
     (5, 4, 11) := by decide +kernel
@@ -945,6 +1169,32 @@ example : ((GlbOpt.post exInp).consts.all fun d => decide (exSigma d.1 = d.2)) =
 example : ((GlbOpt.post exInp).vars.all fun d =>
     (match d.2.1 with | some lb => decide (lb ≤ exSigma d.1) | none => true) &&
     (match d.2.2 with | some ub => decide (exSigma d.1 ≤ ub) | none => true)) = true := by decide +kernel
+
+/-- the same with the movable hard module `H` (two rectangles) and three nets — three pins (weight 2), two pins, and a
+    net between the fixed module and itself (a constant objective term): 21 variables (incl. the net-centre variables
+    `ex_0, ey_0`), 4 constants, 31 rows of which 6 are objective terms. -/
+def exInp2 : GlbOpt.Input ℚ :=
+  { die := ⟨2, 1, 4, 2, "_", false, false, .nopoly⟩, epsD := 1/1000000, thr := 9/10, alpha := 3/10, offered := exOffered,
+    mods := exMods, areaOf := fun n => if n = "S" then 2 else 4,
+    edges := [(2, ["S", "F", "H"]), (1, ["S", "H"]), (5, ["F", "F"])], powF := fun a _ => a * a }
+
+example : ((GlbOpt.post exInp2).vars.length, (GlbOpt.post exInp2).consts.length, (GlbOpt.post exInp2).rows.length,
+    ((GlbOpt.post exInp2).rows.filter fun r => !r.isEqn).length) = (21, 4, 31, 6) := by decide +kernel
+
+/-- the objective at `exSigma`: `alpha · wire length + (1 - alpha) · dispersion` (theorem applied), and its value. -/
+example : GlbOpt.objective exSigma (GlbOpt.post exInp) =
+    3/10 * GlbOpt.wireLength exSigma exInp + (1 - 3/10) * GlbOpt.totalDispersion exSigma exInp :=
+  posted_objective_alpha_weighting exInp exSigma
+example : GlbOpt.objective exSigma (GlbOpt.post exInp) = 3/5 := by decide +kernel
+example : GlbOpt.objective exSigma (GlbOpt.post exInp2) = 15/2 := by decide +kernel
+
+/-- the dictionary keys of the example netlist are distinct (`S, F, H_0, H_1` and `H`). -/
+example : GlbOpt.KeysDistinct exMods := by unfold GlbOpt.KeysDistinct; decide +kernel
+
+/-- `extract_returns_of_solverPost` applies to the example answer: its conclusion, computed. -/
+example : (match extractSolution exAns (1/1000000) (9/10) exMods exCells with
+    | .ok (al, _) => al.length == (allocList exAns (9/10) exMods exCells).length | .error _ => false) = true := by
+  decide +kernel
 
 end Examples
 
@@ -995,6 +1245,51 @@ theorem glbfloor_correct_from_die (env : Alloc.Env α) (st : Alloc.Eps α) (hd :
   obtain ⟨h1, h2, h3, h4⟩ := hstart gmods hg
   exact glbfloor_correct env solve thr tol (Die.dieRect inp.W inp.H) maxIter fuel ⟨a, st, gmods⟩ r h1 h2 h3 h4
     hthr htol0 htol hlim hsol hrun'
+
+/-- **the same composition with the solver hypothesis reduced to the posted system**: C01 valid die → C03 initial allocation
+    → C10 loop, where all that is assumed of GEKKO is `SolverMeetsPosted` (whenever it returns, the point satisfies what
+    `optimize_allocation` posted for that loop state, within `tolI` / `tolE`).  No start-state hypothesis and no
+    `SolverPost` / `ConstRespect` hypothesis is left. -/
+theorem glbfloor_correct_posted_from_die (env : Alloc.Env α) (st : Alloc.Eps α) (hd : 0 ≤ st.dist) (ha : 0 ≤ st.area)
+    (sqrt : α → α) (stD : Option (α × α)) (doc : Die.YV α) (inp : Die.DieIn α)
+    (mods : List (InitAlloc.Module α)) (hp : Die.parseDie doc = .ok inp)
+    (hεd : 0 ≤ (Die.mkEps sqrt stD inp.W inp.H).1.d) (hεa : 0 ≤ (Die.mkEps sqrt stD inp.W inp.H).1.a)
+    (hvd : C01.ValidDie (Die.mkEps sqrt stD inp.W inp.H).1.d inp (InitAlloc.netFixedRects mods)) (picks : List Die.IRect)
+    (hacc : Die.coverAccept ((Die.gridOf (Die.mkEps sqrt stD inp.W inp.H).1 inp (InitAlloc.netFixedRects mods)).2.length - 1)
+      ((Die.gridOf (Die.mkEps sqrt stD inp.W inp.H).1 inp (InitAlloc.netFixedRects mods)).1.length - 1)
+      (Die.occ (Die.gridOf (Die.mkEps sqrt stD inp.W inp.H).1 inp (InitAlloc.netFixedRects mods)).1
+        (Die.gridOf (Die.mkEps sqrt stD inp.W inp.H).1 inp (InitAlloc.netFixedRects mods)).2
+        (Die.occRects inp (InitAlloc.netFixedRects mods))) picks = true)
+    (hn : InitAlloc.NetOK sqrt mods) (hrects : ∀ m ∈ mods, m.fixed = true → m.rects ≠ [])
+    (hid : ∀ m ∈ mods, Alloc.validIdent m.name = true) :
+    ∃ out, Die.dieModel sqrt stD doc (InitAlloc.netFixedRects mods) (some picks) =
+        .ok (out, (Die.mkEps sqrt stD inp.W inp.H).1, (Die.mkEps sqrt stD inp.W inp.H).2) ∧
+      ∀ (A : InitAlloc.Allocation α),
+        InitAlloc.createInitialAllocation sqrt st.area false mods (InitAlloc.refinableOf out) out.fixed = .ok A →
+        ∃ a, Alloc.mkAllocation env st ((A.cells.map InitAlloc.toAllocCell).map Alloc.Cell.toRaw) = .ok (a, st) ∧
+          ∀ gmods : List (Glb.Module α), InitAlloc.GlbModsOf mods gmods →
+          ∀ (solve : AState α → Option (Answer α)) (thr tolI tolE : α) (maxIter : Option Nat) (fuel : Nat) (r : AState α),
+            0 < thr → 0 ≤ tolI → 0 ≤ tolE → tolI + (gmods.length : α) * tolE ≤ 1 - thr → maxIter ≠ some 0 →
+            SolverMeetsPosted solve tolI tolE thr (Die.dieRect inp.W inp.H) ⟨a, st, gmods⟩ →
+            glbfloorA env solve thr maxIter fuel ⟨a, st, gmods⟩ = some r →
+            CellsFeasible (Die.dieRect inp.W inp.H) st.area r ∧
+            (∀ c ∈ r.alloc.cells, c.alloc ≠ [] ∧ ∀ p ∈ c.alloc, 0 ≤ p.2 ∧ p.2 ≤ 1) ∧
+            (∀ c ∈ r.alloc.cells, (c.alloc.map (·.2)).sum ≤ 1 + (tolI + (gmods.length : α) * tolE)) ∧
+            (∀ m ∈ r.mods, InDie (Die.dieRect inp.W inp.H) m.cx m.cy) ∧
+            List.Forall₂ ModRel gmods r.mods ∧
+            (∀ m ∈ r.mods, m.hard = true → m.fixed = false → IsCentroid m.rects m.cx m.cy) ∧
+            (∀ f ∈ gmods, f.fixed = true →
+              f ∈ r.mods ∧ FixedOwn (r.alloc.cells.map ofCell) f ∧
+              ∀ c0 ∈ a.cells, c0.alloc = [(f.name, 1)] → c0.rect.fixed = true →
+                ∃ d ∈ r.alloc.cells, d.rect = c0.rect ∧ d.alloc = [(f.name, 1)]) := by
+  obtain ⟨out, hrun, hall⟩ := C03.initial_allocation_is_glb_start env st hd ha sqrt stD doc inp mods hp hεd hεa hvd picks
+    hacc hn hrects hid
+  refine ⟨out, hrun, fun A hA => ?_⟩
+  obtain ⟨a, hmk, _, hstart⟩ := hall A hA
+  refine ⟨a, hmk, fun gmods hg solve thr tolI tolE maxIter fuel r hthr htI htE htol hlim hsol hrun' => ?_⟩
+  obtain ⟨h1, h2, h3, h4⟩ := hstart gmods hg
+  exact glbfloor_correct_posted env solve thr tolI tolE (Die.dieRect inp.W inp.H) maxIter fuel ⟨a, st, gmods⟩ r h1 h2 h3 h4
+    hthr htI htE htol hlim hsol hrun'
 
 /-! ### applied witnesses of `glbfloor_correct` (ported from audit 3) -/
 
